@@ -1393,6 +1393,122 @@ fn foreign_cases() -> Vec<ForeignCase> {
     out
 }
 
+// ---------------------------------------------------------------------------------------------
+// an error status that reaches tonic wrapped inside another error (what a tower layer or a
+// transport hands over): whatever path finds the status must keep its metadata
+// ---------------------------------------------------------------------------------------------
+
+#[derive(Debug)]
+struct Wrapping {
+    what: &'static str,
+    source: Box<dyn std::error::Error + Send + Sync>,
+}
+impl std::fmt::Display for Wrapping {
+    fn fmt(&self, f: &mut std::fmt::Formatter<'_>) -> std::fmt::Result {
+        write!(f, "{}", self.what)
+    }
+}
+impl std::error::Error for Wrapping {
+    fn source(&self) -> Option<&(dyn std::error::Error + 'static)> {
+        Some(&*self.source)
+    }
+}
+
+#[derive(Clone, Debug)]
+struct WrapCase {
+    md: Md,
+    /// how many error types are wrapped around the status (0 = the bare status)
+    depth: usize,
+    /// 0 Status::from_error, 1 Status::try_from_error, 2 a transport failing under the generated client
+    path: u8,
+}
+
+#[derive(Clone)]
+struct FailingTransport {
+    status: tonic::Status,
+    depth: usize,
+}
+
+fn wrap(status: tonic::Status, depth: usize) -> Box<dyn std::error::Error + Send + Sync> {
+    let mut e: Box<dyn std::error::Error + Send + Sync> = Box::new(status);
+    for i in 0..depth {
+        e = Box::new(Wrapping { what: if i == 0 { "layer refused the call" } else { "outer layer" }, source: e });
+    }
+    e
+}
+
+impl tower_service::Service<http::Request<tonic::body::Body>> for FailingTransport {
+    type Response = http::Response<tonic::body::Body>;
+    type Error = Box<dyn std::error::Error + Send + Sync>;
+    type Future = std::future::Ready<Result<Self::Response, Self::Error>>;
+    fn poll_ready(&mut self, _: &mut std::task::Context<'_>) -> std::task::Poll<Result<(), Self::Error>> {
+        std::task::Poll::Ready(Ok(()))
+    }
+    fn call(&mut self, _req: http::Request<tonic::body::Body>) -> Self::Future {
+        std::future::ready(Err(wrap(self.status.clone(), self.depth)))
+    }
+}
+
+fn wrapped_body(c: &WrapCase, ch: &Chooser) -> Outcome {
+    let spec = carrier_status(c.md.clone());
+    let status = spec.build();
+    let found: Result<tonic::Status, String> = match c.path {
+        0 => Ok(tonic::Status::from_error(wrap(status, c.depth))),
+        1 => tonic::Status::try_from_error(wrap(status, c.depth)).map_err(|e| format!("try_from_error did not find the status: {e}")),
+        _ => {
+            let mut client = EchoClient::new(FailingTransport { status, depth: c.depth });
+            match spin_block_on(client_call(&mut client, Shape::Unary, vec![vec![1]], &vec![], false, ch, |_| {}), 10_000) {
+                Err(_) => Err("call did not complete".into()),
+                Ok(v) => v.error.ok_or_else(|| "the call succeeded although its transport failed".to_string()),
+            }
+        }
+    };
+    let mut o = Outcome::new(match &found {
+        Ok(s) => crate::env::fmt_status(s),
+        Err(e) => format!("ERR {e}"),
+    });
+    o.nontrivial = c.depth > 0 && md_nontrivial(&c.md);
+    let s = match found {
+        Ok(s) => s,
+        Err(e) => {
+            o.violate("wrapped-status-not-found", e);
+            return o;
+        }
+    };
+    if s.code() as i32 != spec.code || s.message() != spec.message || s.details() != &spec.details[..] {
+        o.violate("wrapped-status-changed", format!("status {} came out as {}", crate::env::fmt_status(&spec.build()), crate::env::fmt_status(&s)));
+    }
+    for key in keys_in_order(&c.md) {
+        if is_reserved(key) {
+            continue;
+        }
+        let want = want_bytes(&c.md, key);
+        let got = typed_values(s.metadata(), key);
+        if got != want {
+            o.violate("wrapped-status-metadata-lost", format!("status wrapped in {} error(s): key {key:?} has {:?}, attached {:?}", c.depth, show_vals(key, &got), show_vals(key, &want)));
+        }
+    }
+    o
+}
+
+fn wrap_cases() -> Vec<WrapCase> {
+    let mut mds: Vec<Md> = vec![vec![], vec![a("a", "1")], vec![b("a-bin", &[0, 0x3D, 0xFB])], vec![a("a", "1"), a("a", "2"), a("a", "1")], vec![b("a-bin", &[]), b("a-bin", &[0xFF]), a("x-y", "a b")]];
+    for (i, (m, _)) in mixed_mds().into_iter().enumerate() {
+        if i % 7 == 0 {
+            mds.push(m);
+        }
+    }
+    let mut out = vec![];
+    for md in mds {
+        for depth in 0..=3 {
+            for path in 0..3u8 {
+                out.push(WrapCase { md: md.clone(), depth, path });
+            }
+        }
+    }
+    out
+}
+
 pub fn property(tier: Tier) -> Property {
     let tables = Arc::new(Tables { bins: bin_strings(tier.q(4, 6)) });
     let cfg = || Config { max_bound: 0, ..Default::default() };
@@ -1449,6 +1565,15 @@ pub fn property(tier: Tier) -> Property {
         foreign_body,
     )
     .mins(10, 3, 8);
+    let wrapped = Section::new(
+        "wrapped-status",
+        Config::default(),
+        "cases: an error status carrying metadata (empty, single ASCII / binary, repeated, mixed menus incl. reserved names) reaches tonic as the source of 0..3 nested foreign error types, through Status::from_error, Status::try_from_error, and as the failure of the transport under the generated client; oracle: the status found has the same code, message, details and, per non-reserved key, the same values in the same order. Non-trivial = wrapped at least once and metadata attached.",
+        wrap_cases(),
+        |c: &WrapCase| format!("depth={} path={} md={:?}", c.depth, ["from_error", "try_from_error", "failing transport"][c.path as usize], c.md),
+        wrapped_body,
+    )
+    .mins(50, 3, 20);
     let accessors = Section::new(
         "accessors",
         cfg(),
@@ -1470,7 +1595,7 @@ pub fn property(tier: Tier) -> Property {
             "forgery is judged by value: the values attached under reserved names are chosen so that tonic never legitimately sends them (status code 9, message 'm 9%')".into(),
             "wire-l2 judges the peer's view only (the bytes inside the h2 connection are not captured)".into(),
         ],
-        sections: vec![wire_l1, wire_l2, padded, merge, accessors, foreign],
+        sections: vec![wire_l1, wire_l2, padded, merge, accessors, foreign, wrapped],
         extra: Default::default(),
     }
 }
